@@ -187,6 +187,11 @@ except Exception as e:
             site = os.path.relpath(fr.filename, os.environ["VF_REPO"]) + ":" + fr.name
             break
     out = {{"holds": False, "tags": list(obl_util.TAGS), "exception": type(e).__name__, "site": site, "text": str(e)[:300]}}
+    if not site:
+        # raised without any frame of the repository on the stack: the harness failed, not the library
+        out["harness_error"] = True
+        print("REPLAY " + json.dumps(out))
+        sys.exit(3)
 print("REPLAY " + json.dumps(out))
 sys.exit(0 if out["holds"] else 1)
 '''
